@@ -23,6 +23,8 @@ From CL Require Import Base.Sx Base.Res Base.Str Model.AddRemove Model.Channels
                        Proofs.MergeShape Proofs.PropsShape Proofs.MergeReparse15 Proofs.PropsView.
 From CL Require Proofs.C02BlocksDtd Proofs.DtdShape Proofs.DtdReparse Proofs.DtdView.
 From CL Require Proofs.C02BlocksIni Proofs.IniShape Proofs.IniReparse Proofs.IniView.
+From CL Require Proofs.C02BlocksInc Proofs.IncShape Proofs.IncReparse Proofs.MergeHeadInstr.
+From CL Require Proofs.C02Po Proofs.C02BlocksPo Proofs.PoReparse.
 From Coq Require Import Lia.
 Import ListNotations.
 Local Open Scope nat_scope.
@@ -414,4 +416,188 @@ Proof.
       repeat (apply Forall_cons; [wsok_one|]); apply Forall_nil. }
   split; [vm_compute; reflexivity|]. split; [reflexivity|]. split; [vm_compute; reflexivity|].
   vm_compute. discriminate.
+Qed.
+
+(* ---- the re-parse clause for .inc, from the block theorem of C02 (blocks_inc) -------------------
+   Versions are legal .inc block lists (Proofs/C02BlocksInc.v: "#define KEY [VALUE]" with
+   attached "# " comment lines, standalone comments, instructions "#word args", runs of
+   newlines); their entries are [IncShape.ncentries_of bs] (an instruction is an entry of
+   kind COther keyed by its text).  DefinesParser keeps a filter state: a run of more than one
+   newline is Whitespace only after "#filter emptyLines" (Junk otherwise, as is a newline at
+   offset 0), and the merge reorders entries; the theorem covers ([IncReparse.nregions])
+   (a) versions without empty lines and (b) versions that all start with "#filter emptyLines"
+   and have no "#unfilter emptyLines".  Both restrictions of (b) are needed
+   (C15_reparse_inc_unfilter_refuted, C15_reparse_inc_filter_first_refuted).
+   [IncReparse.nversion_ok m bs] (2 <= m): legal blocks, distinct keys, every entity /
+   instruction / comment directly followed by a whitespace entry (two newlines after a comment),
+   no leading newline.  All whitespace of an .inc file is newlines, so the listed finding
+   merge-ws-fold-loses-blank-line has no .inc form (the longer run has more newlines).
+   Then the merged text re-parses (walk_defines) without junk; its entities (key, value), its
+   standalone comments and its instructions are those of the merged entry list, in order. *)
+Theorem C15_reparse_inc : forall m, 2 <= m -> forall name (bss : list (list C02BlocksInc.nblock)) txt,
+  Forall (IncReparse.nversion_ok m) bss -> IncReparse.nregions (map IncShape.ncentries_of bss) ->
+  merge_channels name (map IncShape.ncentries_of bss) = Ok txt ->
+  exists out es,
+    merge_entries (map IncShape.ncentries_of bss) = Ok out /\ txt = concat (map c_text out) /\
+    walk_defines txt = Ok es /\
+    map (fun e => let r := C02BlocksInc.entity_nrecord txt e in
+                  (fst (fst r), match snd (fst r) with Some v => v | None => [] end))
+        (filter (C02BlocksInc.is_kind KEntity) es) = krecs out /\
+    map (fun e => C02BlocksInc.span_text txt (e_span e)) (filter (C02BlocksInc.is_kind KComment) es) =
+      ccoms out /\
+    map (fun e => C02BlocksInc.opt_text txt (e_val e)) (filter (C02BlocksInc.is_kind KInstruction) es) =
+      IncShape.cinstrs out /\
+    filter (C02BlocksInc.is_kind KJunk) es = [].
+Proof. exact IncReparse.merge_reparse_inc. Qed.
+
+(* newer  #filter emptyLines / <blank> / #define a 1 / #define b 2
+   older  #filter emptyLines / <blank> / #define a 0 / # c / <blank> / #define z 3 / #define b 2 *)
+Definition ne (k v : list nat) : C02BlocksInc.nblock :=
+  C02BlocksInc.NEntity [] (A [32]) (A k) (Some (32%N, A v)) true.
+Definition n_new : list C02BlocksInc.nblock :=
+  [C02BlocksInc.nx_filter; C02BlocksInc.NBlank 1; ne [97] [49]; ne [98] [50]].
+Definition n_old : list C02BlocksInc.nblock :=
+  [C02BlocksInc.nx_filter; C02BlocksInc.NBlank 1; ne [97] [48];
+   C02BlocksInc.NComment [(35%N, A [32; 99])]; C02BlocksInc.NBlank 1; ne [122] [51]; ne [98] [50]].
+
+Ltac nversion_ok_tac :=
+  split; [repeat constructor|]; split; [split; nodup_tac|];
+  split; [vm_compute; intuition (try discriminate; try lia)|vm_compute; reflexivity].
+Ltac starts_filter_tac := eexists; eexists; split; [reflexivity|split; reflexivity].
+Ltac no_unfilter_tac :=
+  intros e He K; vm_compute in He;
+  repeat (destruct He as [<-|He]; [first [discriminate K | vm_compute; discriminate]|]); contradiction.
+
+Example C15_example_nversion_ok :
+  Forall (IncReparse.nversion_ok 2) [n_new; n_old] /\
+  IncReparse.nregions (map IncShape.ncentries_of [n_new; n_old]).
+Proof.
+  split; [constructor; [nversion_ok_tac|constructor; [nversion_ok_tac|constructor]]|].
+  right. split.
+  - constructor; [starts_filter_tac|constructor; [starts_filter_tac|constructor]].
+  - constructor; [no_unfilter_tac|constructor; [no_unfilter_tac|constructor]].
+Qed.
+
+Example C15_example_reparse_inc :
+  exists txt es, merge_channels (s [100;46;105;110;99]) (map IncShape.ncentries_of [n_new; n_old]) = Ok txt /\
+    walk_defines txt = Ok es /\
+    map (fun e => let r := C02BlocksInc.entity_nrecord txt e in
+                  (fst (fst r), match snd (fst r) with Some v => v | None => [] end))
+        (filter (C02BlocksInc.is_kind KEntity) es) = [(A [97], A [49]); (A [122], A [51]); (A [98], A [50])] /\
+    map (fun e => C02BlocksInc.span_text txt (e_span e)) (filter (C02BlocksInc.is_kind KComment) es) =
+      [A [35; 32; 99]] /\
+    filter (C02BlocksInc.is_kind KJunk) es = [].
+Proof.
+  eexists. eexists. split; [vm_compute; reflexivity|]. split; [vm_compute; reflexivity|].
+  split; [vm_compute; reflexivity|]. split; vm_compute; reflexivity.
+Qed.
+
+(* "no #unfilter emptyLines" is needed: both versions are legal and junk-free,
+   newer  #filter emptyLines / #unfilter emptyLines / #define y 1
+   older  #filter emptyLines / #define y 1 / <blank> / #define z 2
+   the older version's empty line follows y, which the newer version has behind its #unfilter:
+   the merged text has the empty line outside the filter region — a Junk entry *)
+Definition nu_new : list C02BlocksInc.nblock :=
+  [C02BlocksInc.nx_filter; C02BlocksInc.nx_unfilter; ne [121] [49]].
+Definition nu_old : list C02BlocksInc.nblock :=
+  [C02BlocksInc.nx_filter; ne [121] [49]; C02BlocksInc.NBlank 1; ne [122] [50]].
+Ltac inc_hyps_tac :=
+  constructor; [|constructor; [|constructor]];
+    (split; [split; [repeat constructor|]; split; [split; nodup_tac|];
+             split; [vm_compute; intuition (try discriminate; try lia)|vm_compute; reflexivity]|]);
+    (split; [vm_compute; reflexivity|]); vm_compute; reflexivity.
+Theorem C15_reparse_inc_unfilter_refuted :
+  exists name txt es,
+    Forall (fun bs => IncReparse.nversion_ok 2 bs /\ C02BlocksInc.nadjacent_ok bs /\
+                      C02BlocksInc.nblanks_ok false true bs = true) [nu_new; nu_old] /\
+    Forall (MergeHeadInstr.starts_instr Parse.s_filter) (map IncShape.ncentries_of [nu_new; nu_old]) /\
+    merge_channels name (map IncShape.ncentries_of [nu_new; nu_old]) = Ok txt /\
+    walk_defines txt = Ok es /\ filter (C02BlocksInc.is_kind KJunk) es <> [].
+Proof.
+  exists (s [100;46;105;110;99]). eexists. eexists.
+  split; [inc_hyps_tac|].
+  split; [constructor; [starts_filter_tac|constructor; [starts_filter_tac|constructor]]|].
+  split; [vm_compute; reflexivity|]. split; [vm_compute; reflexivity|]. vm_compute. discriminate.
+Qed.
+
+(* "every version starts with #filter emptyLines" is needed:
+   newer  #define y 1 / #filter emptyLines        older  #filter emptyLines / #define y 1 / <blank> / #define z 2
+   the merged text  #define y 1 / <blank> / #define z 2 / #filter emptyLines  has the empty
+   line in front of the instruction *)
+Definition nf_new : list C02BlocksInc.nblock := [ne [121] [49]; C02BlocksInc.nx_filter].
+Theorem C15_reparse_inc_filter_first_refuted :
+  exists name txt es,
+    Forall (fun bs => IncReparse.nversion_ok 2 bs /\ C02BlocksInc.nadjacent_ok bs /\
+                      C02BlocksInc.nblanks_ok false true bs = true) [nf_new; nu_old] /\
+    Forall IncReparse.no_unfilter (map IncShape.ncentries_of [nf_new; nu_old]) /\
+    merge_channels name (map IncShape.ncentries_of [nf_new; nu_old]) = Ok txt /\
+    walk_defines txt = Ok es /\ filter (C02BlocksInc.is_kind KJunk) es <> [].
+Proof.
+  exists (s [100;46;105;110;99]). eexists. eexists.
+  split; [inc_hyps_tac|].
+  split; [constructor; [no_unfilter_tac|constructor; [no_unfilter_tac|constructor]]|].
+  split; [vm_compute; reflexivity|]. split; [vm_compute; reflexivity|]. vm_compute. discriminate.
+Qed.
+
+(* ---- the re-parse clause for PO, from the block theorem of C02 (blocks_po) -----------------------
+   Versions are legal PO block lists (Proofs/C02BlocksPo.v: messages [msgctxt] msgid msgstr with
+   attached comment lines, standalone comments, whitespace); their entries are
+   [PoReparse.pcentries_of bs]: the key of a message is the meaning of its msgid items, followed
+   by \x04 and the meaning of its msgctxt items when it has a msgctxt (the rendering of the key
+   tuple (msgid, msgctxt) that the harness hands to the model), a comment entry is the comment
+   lines including their line breaks.  [PoReparse.pversion_ok m bs]: legal blocks, no "License"
+   in attached comments, distinct keys, every message / standalone comment directly followed by
+   a whitespace entry (at least m long after a comment), every whitespace entry of length >= m
+   has two line breaks (excludes the listed finding merge-ws-fold-loses-blank-line).
+   Then the merged text is the text of a legal block list bs whose entries are, up to object
+   identity, the merged entry list; it re-parses (walk_po) to the entries of bs (C02 blocks_po):
+   no Junk, the kinds of the merged entry list in its order.  (C02 has no record theorem for
+   PO; the entity-level content is in [map strip (pcentries_of bs) = map strip out].) *)
+Theorem C15_reparse_po : forall m name (bss : list (list C02BlocksPo.pblock)) txt,
+  Forall (PoReparse.pversion_ok m) bss ->
+  merge_channels name (map PoReparse.pcentries_of bss) = Ok txt ->
+  exists out bs,
+    merge_entries (map PoReparse.pcentries_of bss) = Ok out /\ txt = concat (map c_text out) /\
+    Forall C02BlocksPo.legal_pblock bs /\ C02BlocksPo.padjacent_ok bs /\ C02BlocksPo.pfile_text bs = txt /\
+    map strip (PoReparse.pcentries_of bs) = map strip out /\
+    walk_po txt = Ok (C02BlocksPo.pentries_of bs) /\
+    map (fun e => PoReparse.ckind_of (e_kind e)) (C02BlocksPo.pentries_of bs) = map c_kind out /\
+    Forall (fun e => e_kind e <> KJunk) (C02BlocksPo.pentries_of bs).
+Proof. exact PoReparse.merge_reparse_po. Qed.
+
+(* newer  msgid "a" / msgstr "1" / <blank> / msgid "b" / msgstr "2"
+   older  msgid "a" / msgstr "0" / <blank> / # c / <2 blank lines> / msgctxt "x" msgid "a" / msgstr "3" / <blank> / msgid "b" ... *)
+Definition pit (c : nat) : list C02BlocksPoRx.pitem := [C02BlocksPo.it [32] [C02Po.PPlain (N.of_nat c)]].
+Definition pm (k v : nat) : C02BlocksPo.pblock := C02BlocksPo.PEntity [] [] None (pit k) (A [10]) (pit v).
+Definition pmc (c k v : nat) : C02BlocksPo.pblock :=
+  C02BlocksPo.PEntity [] [] (Some (pit c, A [10])) (pit k) (A [10]) (pit v).
+Definition pnl : C02BlocksPo.pblock := C02BlocksPo.PBlank (A [10; 10]).
+Definition p_new : list C02BlocksPo.pblock := [pm 97 49; pnl; pm 98 50; pnl].
+Definition p_old : list C02BlocksPo.pblock :=
+  [pm 97 48; pnl; C02BlocksPo.PComment [(35%N, A [32; 99])]; pnl; pmc 120 97 51; pnl; pm 98 50; pnl].
+
+Ltac pwsok_one :=
+  unfold PoReparse.pwsok;
+  first [ intros Hw; vm_compute in Hw; discriminate
+        | intros _ Hl; first [vm_compute; lia | exfalso; vm_compute in Hl; lia] ].
+Ltac pversion_ok_tac :=
+  split; [repeat constructor|]; split; [repeat constructor|];
+  split; [split; nodup_tac|]; split; [vm_compute; intuition (try discriminate; try lia)|];
+  unfold PoReparse.pcentries_of; cbn [PoReparse.pcents PropsShape.cflush app pm pmc pnl];
+  repeat (apply Forall_cons; [pwsok_one|]); apply Forall_nil.
+
+Example C15_example_pversion_ok : Forall (PoReparse.pversion_ok 2) [p_new; p_old].
+Proof. constructor; [pversion_ok_tac|constructor; [pversion_ok_tac|constructor]]. Qed.
+
+(* the same msgid with and without msgctxt are different keys; the merged text has both *)
+Example C15_example_reparse_po :
+  exists txt es, merge_channels (s [102;46;112;111]) (map PoReparse.pcentries_of [p_new; p_old]) = Ok txt /\
+    walk_po txt = Ok es /\
+    map e_kind es = [KEntity; KWhitespace; KComment; KWhitespace; KEntity; KWhitespace; KEntity; KWhitespace] /\
+    map (fun e => C02Blocks.opt_text txt (e_val e)) (filter (is_kind KEntity) es) =
+      [A [109;115;103;115;116;114; 32;34;49;34]; A [109;115;103;115;116;114; 32;34;51;34];
+       A [109;115;103;115;116;114; 32;34;50;34]].
+Proof.
+  eexists. eexists. split; [vm_compute; reflexivity|]. split; [vm_compute; reflexivity|].
+  split; vm_compute; reflexivity.
 Qed.
